@@ -306,6 +306,90 @@ fn case_fn(case: &mut Case, base: &Path, k_runs: usize) -> CaseResult {
     Ok(())
 }
 
+/// In-process: the schema verdict must not depend on the order of definitions or on the file that
+/// holds them (valid schemas and schemas with one injected type-system fault).
+fn schema_verdict_case(case: &mut Case) -> CaseResult {
+    use crate::gen_schema::{gen_schema, split_into_extensions, SchemaGenOpts};
+    use crate::model::MTsDef;
+    use crate::pipeline::schema_stage;
+    use crate::props::c11::render_ts_file;
+    use crate::render::RenderOpts;
+    let gs = gen_schema(&mut case.ch, &SchemaGenOpts::default());
+    let mut doc = gs.doc.clone();
+    let fault = if case.ch.chance(3, 4) { crate::props::c05::inject(&mut case.ch, &mut doc) } else { None };
+    let items: Vec<MTsDef> = split_into_extensions(&mut case.ch, &doc).into_iter().flatten().collect();
+    let name_of = |d: &MTsDef| -> Option<(u8, String)> {
+        match d {
+            MTsDef::TypeExt(t) => Some((t.kind as u8, t.name.clone())),
+            MTsDef::SchemaExt(_) => Some((99, String::new())),
+            _ => None,
+        }
+    };
+    let render = |ch: &mut crate::choices::Choices, order: &[MTsDef]| -> Vec<(std::path::PathBuf, String)> {
+        // distribute over 1-3 files, keeping the order
+        let n = 1 + ch.below(3);
+        let mut files: Vec<Vec<MTsDef>> = vec![vec![]; n];
+        let mut cur = 0;
+        for d in order {
+            if ch.chance(1, 4) {
+                cur = (cur + 1).min(n - 1);
+            }
+            files[cur].push(d.clone());
+        }
+        files
+            .iter()
+            .filter(|f| !f.is_empty())
+            .enumerate()
+            .map(|(i, f)| (std::path::PathBuf::from(format!("/p/s{i}.graphql")), render_ts_file(f, RenderOpts::canonical(), None).text))
+            .collect()
+    };
+    let verdict = |files: &[(std::path::PathBuf, String)], detail: &Value| -> Result<(bool, Vec<String>), Failure> {
+        let ss = schema_stage(files, detail)?;
+        let d = ss.all_diags();
+        Ok((d.is_empty(), d.iter().map(|x| x.kind.clone()).collect()))
+    };
+    let f0 = render(&mut case.ch, &items);
+    let d0 = json!({"files": f0.iter().map(|x| x.1.clone()).collect::<Vec<_>>()});
+    let (ok0, kinds0) = verdict(&f0, &d0)?;
+    for _ in 0..3 {
+        // permutation that keeps the relative order of the extensions of one name
+        let perm = case.ch.permutation(items.len());
+        let mut order: Vec<MTsDef> = perm.iter().map(|&i| items[i].clone()).collect();
+        // restore extension order per (kind, name)
+        let mut groups: BTreeMap<(u8, String), Vec<usize>> = BTreeMap::new();
+        for (pos, d) in order.iter().enumerate() {
+            if let Some(k) = name_of(d) {
+                groups.entry(k).or_default().push(pos);
+            }
+        }
+        for (k, positions) in groups {
+            let originals: Vec<MTsDef> = items.iter().filter(|d| name_of(d).as_ref() == Some(&k)).cloned().collect();
+            for (pos, d) in positions.into_iter().zip(originals) {
+                order[pos] = d;
+            }
+        }
+        let f1 = render(&mut case.ch, &order);
+        let d1 = json!({"files": f1.iter().map(|x| x.1.clone()).collect::<Vec<_>>()});
+        let (ok1, kinds1) = verdict(&f1, &d1)?;
+        case.evals(1);
+        if ok0 != ok1 {
+            return Err(Failure::new(
+                "schema-verdict-depends-on-order",
+                format!("the same definitions are {} in one order and {} in another (diagnostics {:?} vs {:?})", if ok0 { "accepted" } else { "rejected" }, if ok1 { "accepted" } else { "rejected" }, kinds0, kinds1),
+                json!({"order_a": d0["files"], "order_b": d1["files"], "injected_fault": fault.as_ref().map(|f| format!("{}@{}", f.label, f.cell))}),
+            ));
+        }
+    }
+    if let Some(f) = &fault {
+        case.label(&format!("fault:{}", f.label));
+        case.nontrivial(&(f.label, f.cell.clone(), items.len()));
+    } else {
+        case.label("valid");
+    }
+    case.sample(|| json!({"files": d0["files"], "fault": fault.as_ref().map(|f| f.label)}));
+    Ok(())
+}
+
 pub fn run(env: &Env) -> i32 {
     let mut rep = Report::new(
         env,
@@ -320,5 +404,8 @@ pub fn run(env: &Env) -> i32 {
     let k = if env.is_thorough() { 6 } else { 3 };
     rep.campaign("projects", env.cases(300, 4_000), (300, 1800), move |case| case_fn(case, &b2, k));
     let _ = std::fs::remove_dir_all(&base);
+    rep.shrink_iters = None;
+    rep.note("campaign schema-verdict-order (in-process): valid schemas (25%) or schemas with one injected type-system fault (75%, the 25 C05 operators), split into definitions and extensions, three random permutations each (extension order per name kept) redistributed over 1-3 files: accept/reject must not change");
+    rep.campaign("schema-verdict-order", env.cases(6_000, 200_000), (200, 1500), schema_verdict_case);
     rep.finish()
 }
